@@ -13,6 +13,7 @@ import (
 
 	"github.com/attestantio/dirk/core"
 	"github.com/attestantio/dirk/rules"
+	standardrules "github.com/attestantio/dirk/rules/standard"
 	"github.com/attestantio/dirk/services/checker"
 	"github.com/attestantio/dirk/util/verifhook"
 	e2types "github.com/wealdtech/go-eth2-types/v2"
@@ -66,7 +67,7 @@ func (o SOp) String() string {
 		if e.Pad {
 			addr = "k+"
 		}
-		if o.Kind == "prop" || o.Kind == "legacy-prop" {
+		if o.Kind == "prop" || o.Kind == "legacy-prop" || o.Kind == "twin-prop" {
 			fmt.Fprintf(&sb, " %c%s(slot=%d,r%d,d%d)", 'A'+e.Key, addr, e.Slot, e.Root, e.Dom)
 		} else {
 			fmt.Fprintf(&sb, " %c%s(%d->%d,r%d,d%d)", 'A'+e.Key, addr, e.S, e.T, e.Root, e.Dom)
@@ -279,6 +280,39 @@ func (w *SigWorker) Continue(tr *Trace, path []SOp, verifyLast bool) error {
 				return err
 			}
 			tr.Obs = append(tr.Obs, "ok")
+		case "twin-prop", "twin-att":
+			// A second instance is started on the same storage directory while this one is running (an overlapping
+			// restart, a double start) and is asked for the signature. It either refuses to start or, being Dirk too,
+			// counts as Dirk releasing what its rules approve.
+			e := op.Ents[0]
+			a := accts[e.Key]
+			ctx2, cancel2 := context.WithCancel(context.Background())
+			rs2, err := standardrules.New(ctx2, standardrules.WithStoragePath(w.Rig.Dir))
+			if err != nil {
+				cancel2()
+				tr.Obs = append(tr.Obs, "no-second-instance")
+				break
+			}
+			md := &rules.ReqMetadata{Account: "Wallet 1/" + a.Name(), PubKey: a.PubBytes(), IP: "10.0.0.1", Client: rig.DefaultClient}
+			var res rules.Result
+			if op.Kind == "twin-prop" {
+				res = rs2.OnSignBeaconProposal(ctx, md, PropData(e))
+				if res == rules.APPROVED {
+					tr.Released = append(tr.Released, Released{Key: e.Key, Prop: true, Slot: e.Slot, Root: PropRoot(e), Step: step})
+				}
+			} else {
+				res = rs2.OnSignBeaconAttestation(ctx, md, AttData(e))
+				if res == rules.APPROVED {
+					tr.Released = append(tr.Released, Released{Key: e.Key, S: e.S, T: e.T, Root: AttRoot(e), Step: step})
+				}
+			}
+			_ = rs2.Close(context.Background())
+			cancel2()
+			if res == rules.APPROVED {
+				tr.Obs = append(tr.Obs, "S2")
+			} else {
+				tr.Obs = append(tr.Obs, "D2")
+			}
 		case "legacy-att", "legacy-prop":
 			// The key's history starts in an older release: the store holds a record in the old (gob) format, which
 			// stands for a signature released back then.
